@@ -689,6 +689,14 @@ class ChunkGen:
         self.nvar = 0
         self.cfg_custom = ro['cfg_mode'] == 'custom'
         self.pushed = []
+        self.readonly = set()   # names defined by @expand (file-global): never reassigned by a chunk
+        for name, cls in ro.get('g_ivars', {}).items():
+            self.ivars[name] = cls
+            self.readonly.add(name)
+        for name in ro.get('g_svars', []):
+            self.svars.append(name)
+            self.readonly.add(name)
+        self.defs.extend(ro.get('g_defs', []))
         self.plain_mode = 0     # > 0: no & < > in literals and no macro that expands to an HTML entity (value is stored in a string variable)
 
     # --------------------------------------------------------------- names
@@ -850,7 +858,7 @@ class ChunkGen:
                                  sep=lit(rng.choice('+*')), fsep=None), paren=True), 'nn'
 
     def allow_pc(self):
-        return self.in_def is None
+        return self.in_def is None and not getattr(self, 'in_global', False)
 
     def gen_addr_expr(self, depth):
         rng = self.rng
@@ -1431,8 +1439,9 @@ class ChunkGen:
     def stmt_let_int(self, depth):
         rng = self.rng
         self.features.add('LET-int')
-        if self.ivars and rng.random() < 0.35:
-            name = rng.choice(sorted(self.ivars))
+        own = sorted(set(self.ivars) - self.readonly)
+        if own and rng.random() < 0.35:
+            name = rng.choice(own)
         else:
             name = self.newname('i')
         want = rng.choice(['nn', 'nn', 'any'])
@@ -1447,8 +1456,9 @@ class ChunkGen:
     def stmt_let_str(self, depth):
         rng = self.rng
         self.features.add('LET-str')
-        if self.svars and rng.random() < 0.3:
-            name = rng.choice(self.svars)
+        own = [v for v in self.svars if v not in self.readonly]
+        if own and rng.random() < 0.3:
+            name = rng.choice(own)
         else:
             name = self.newname('s')
         parts = []
@@ -1561,10 +1571,11 @@ class ChunkGen:
             else:
                 sparams.append((nm, None))
         self.params += [(nm, 's', False) for nm, df in sparams]
-        impure = rng.random() < 0.25 and self.ivars and flags & 2 == 0
+        own = sorted(set(self.ivars) - self.readonly)
+        impure = rng.random() < 0.25 and own and flags & 2 == 0 and not getattr(self, 'globals_only', False)
         if impure:
             # documented example: #DEF1(#ADD(amount) #LET(count={{count}}+{amount}))
-            var = rng.choice(sorted(self.ivars))
+            var = rng.choice(own)
             if self.params and self.params[0][1] == 'i':
                 rhs = N('bin', op='+', a=N('fld', name=var), b=N('par', name=self.params[0][0], paren=not nn_params))
             else:
@@ -1831,7 +1842,7 @@ def make_chunk(rng, cid, region, ro, base_state, opts, hazard=None, tries=60):
             tree = g.generate()
             r = Renderer(rng)
             text = r.text(tree, new_rc()).text
-            if re.search('[-]', text):
+            if re.search('[\ue000-\uf8ff]', text):
                 raise Reject('unresolved loop variable placeholder')
             if '\n' in text or text != text.strip() and False:
                 raise Reject('newline')
@@ -1945,8 +1956,38 @@ def make_file(rng, nchunks, hazard=None, nentries=None, forced_opts=None):
     ro = {'rodata': (RO, ro_len), 'strings': strings, 'code_addrs': code_addrs, 'cmdvar_names': sorted(opts['cmdvars']),
           'cfg_mode': rng.choice(['default', 'custom'])}
     base_state = State(mem)
-    # --- globals defined by @expand (read-only for the chunks)
+    # --- globals defined by @expand (read-only for the chunks): #LET and #DEF that precede every comment field
     expands = []
+    if rng.random() < 0.6 and not hazard:
+        for attempt in range(20):
+            try:
+                gg = ChunkGen(rng, 900 + attempt, (RO, 16), ro, base_state, opts)
+                gg.globals_only = True
+                gg.in_global = True
+                nodes = []
+                for k in rng.sample(['let_int', 'let_int', 'let_str', 'def'], rng.randint(1, 3)):
+                    gg.in_def = None
+                    node = getattr(gg, 'stmt_' + k)(2)
+                    gg.add_stmt(nodes, node)
+                if gg.uses_pc or 'STR' in gg.features and False:
+                    raise Reject('pc in a global')
+                st = base_state.copy()
+                texts = []
+                r = Renderer(rng)
+                for node in nodes:
+                    t = r.text(N('seq', items=[node]), new_rc()).text
+                    if re.search('[\ue000-\uf8ff]', t) or t != t.strip():
+                        raise Reject('placeholder')
+                    texts.append(t)
+                    Evaluator(st, opts['base'], opts['case'], opts['cmdvars'], 0).text(node, Env())
+                base_state = st
+                expands = texts
+                ro['g_ivars'] = dict(gg.ivars)
+                ro['g_svars'] = list(gg.svars)
+                ro['g_defs'] = list(gg.defs)
+                break
+            except (Reject, Undefined):
+                continue
     # --- chunks
     chunks = []
     for c in range(nchunks):
